@@ -377,22 +377,25 @@ def aligned_angle_ref_rule1(decay_group, decay_chain_struct, decay_data, data):
     return set_x, ref_matrix_final
 
 
-def aligned_angle_ref_rule2(decay_group, decay_chain_struct, decay_data, data):
+def aligned_angle_ref_rule2(
+    decay_group, decay_chain_struct, decay_data, data, base_z=None
+):
     # calculate aligned angle of final particles in each decay chain
     set_x = {}  # reference particles
     ref_matrix = {}
 
+    # the same axes as used for the helicity angles of the top decay
+    base_x = np.array([[1.0, 0, 0]])
+    if base_z is None:
+        base_z = np.array([[0.0, 0, 1]])
+    p_top = data[decay_group.top]["p"]
     ref_matrix_final = {}
     for i in decay_group.outs:
-        set_x[i] = (
-            None,
-            {"x": np.array([[1.0, 0, 0]]), "z": np.array([[0.0, 0, 1]])},
-        )
-        p = data[i]["p"]
+        set_x[i] = (None, {"x": base_x, "z": base_z})
+        # momentum in the rest frame of the top particle
+        p = LorentzVector.rest_vector(p_top, data[i]["p"])
         ang, _ = EulerAngle.angle_zx_z_getx(
-            np.array([[0.0, 0, 1]]),
-            np.array([[1.0, 0, 0]]),
-            LorentzVector.vect(p),
+            base_z, base_x, LorentzVector.vect(p)
         )
         Bp = SU2M.Boost_z_from_p(LorentzVector.neg(p))
         r = SU2M.Rotation_y(ang["beta"]) * SU2M.Rotation_z(ang["alpha"])
@@ -441,7 +444,7 @@ def cal_angle_from_particle(
         decay_data[i] = data_i
     if align_ref == "center_mass":
         set_x, ref_matrix_final = aligned_angle_ref_rule2(
-            decay_group, decay_chain_struct, decay_data, data
+            decay_group, decay_chain_struct, decay_data, data, base_z=base_z
         )
     else:
         set_x, ref_matrix_final = aligned_angle_ref_rule1(
